@@ -50,6 +50,10 @@ Definition sn_send_owned (s : gw_state) (owner : option N) (p : packet) : R :=
          else stop s [] EcHandlerError      (* "packet too long": the error ends the session *)
   end.
 Definition sn_send (s : gw_state) (p : packet) : R := sn_send_owned s None p.
+(* handler1.snSendNow: pack and write, also to a sleeping client *)
+Definition sn_send_now (s : gw_state) (p : packet) : R :=
+  if len (pack p) <=? MaxPacketLen then ok s [OutSn (gw_now s) (pack p)]
+  else stop s [] EcHandlerError.
 
 (* handler1.mqttSend *)
 Definition mq_send (s : gw_state) (m : mq_pkt) : R := ok s [OutMq (gw_now s) m].
@@ -406,7 +410,8 @@ Definition handle_sn (cfg : gw_cfg) (s : gw_state) (p : packet) : R :=
                  let s := arm s (TmPing p) (gw_keepalive s * 1000) in
                  arm s (TmPingCancel p) (dur * 1000)
                else s in
-      andthen (sn_send (s <| gw_buffer := [] |>) (Disconnect 0))
+      (* the reply is never queued: a client that is asleep already retransmits its DISCONNECT *)
+      andthen (sn_send_now (s <| gw_buffer := [] |>) (Disconnect 0))
               (fun s => ok (s <| gw_st := Asleep |>) [])
   | Regack _ mid rc =>
     match get_by_id s mid with
